@@ -20,6 +20,17 @@ func init() {
 			a.noEscapeOfWiped("S.no-escape-of-wiped")
 			a.c16Whitespace()
 			a.c16QueryParse("V.query-parse")
+			// the text recovered from a received message travels to the caller unchanged, also when the handling of the same
+			// message reports an error (a tagged plaintext whose tag offers nothing usable is still the user's text)
+			for _, name := range []string{"(*Conversation).toSendEncoded", "(*Conversation).withInjectionsPlain"} {
+				if f := a.MustFn(name); f != nil {
+					for i, r := range a.returnsOf(f) {
+						p, isP := resolveLocal(r.Results[0]).(*ssa.Parameter)
+						a.R.Check(isP && paramIndex(p) == 1, "V.plain-through", fmt.Sprintf("%s|return#%d", name, i+1), "the plaintext result is the plaintext parameter", a.C.InstrPos(r), "returns "+a.C.Term(r.Results[0]))
+					}
+				}
+			}
+			a.policiesImmutable("W.policies")
 		})
 }
 
@@ -622,7 +633,11 @@ func (a *An) c16QueryParse(rule string) {
 		return
 	}
 	n := 0
-	for _, b := range f.Blocks {
+	var blocks []*ssa.BasicBlock
+	for _, g := range a.ownedFns(f) {
+		blocks = append(blocks, g.Blocks...)
+	}
+	for _, b := range blocks {
 		for _, in := range b.Instrs {
 			call, ok := in.(*ssa.Call)
 			if !ok || a.F.callName(call) != "strconv.Atoi" {
@@ -646,7 +661,7 @@ func (a *An) c16QueryParse(rule string) {
 			}
 			// shape A: a dominating test of this very character against '?' whose equal-branch leaves the loop
 			shapeA := false
-			for _, b2 := range f.Blocks {
+			for _, b2 := range b.Parent().Blocks {
 				iff, isIf := b2.Instrs[len(b2.Instrs)-1].(*ssa.If)
 				if !isIf || !b2.Dominates(b) || b2 == b && false {
 					continue
